@@ -642,6 +642,80 @@ class Inliner:
             self._remove_dead_helpers(preds)
         return changed
 
+    # ------------------------------------------------------------------ accumulator workers
+    def fold_accumulator_workers(self) -> bool:
+        """F(p0, p1):  R = <fresh copy of p0>; [if p1:] W(R, p1); return R      (W returns nothing)
+        W(c, o):       ... N = <fresh copy of X>; [if Y:] W(N, Y); c[k] = N ...
+        The three statements inside W are F's own body with p0 := X, p1 := Y, R := N, i.e. a call
+        `N = F(X, Y)`.  Folding them makes the recursion go through F again, W loses its
+        recursive call and can be inlined into F like any helper.  Nothing is assumed about W:
+        the fold is a literal (alpha-renamed) match of F's statements."""
+        changed = False
+        for mod in self.p.modules.values():
+            funcs = {st.name: st for st in mod.tree.body if isinstance(st, ast.FunctionDef)}
+            for F in funcs.values():
+                body = [s_ for s_ in F.body if not (isinstance(s_, ast.Expr) and isinstance(s_.value, ast.Constant) and isinstance(s_.value.value, str))]
+                if len(body) < 3 or len(F.args.args) != 2 or F.args.vararg or F.args.kwarg or F.args.kwonlyargs:
+                    continue
+                ret = body[-1]
+                if not (isinstance(ret, ast.Return) and isinstance(ret.value, ast.Name)):
+                    continue
+                R = ret.value.id
+                p0, p1 = F.args.args[0].arg, F.args.args[1].arg
+                callst = body[-2]
+                inner = callst.body[0] if isinstance(callst, ast.If) and len(callst.body) == 1 and not callst.orelse and isinstance(callst.test, ast.Name) and callst.test.id == p1 else callst
+                if not (isinstance(inner, ast.Expr) and isinstance(inner.value, ast.Call) and isinstance(inner.value.func, ast.Name) and inner.value.func.id in funcs and inner.value.func.id != F.name):
+                    continue
+                call = inner.value
+                if not (len(call.args) == 2 and not call.keywords and isinstance(call.args[0], ast.Name) and call.args[0].id == R and isinstance(call.args[1], ast.Name) and call.args[1].id == p1):
+                    continue
+                W = funcs[call.func.id]
+                if any(isinstance(x, ast.Return) and x.value is not None for x in ast.walk(W)):
+                    continue
+                head = body[:-2]
+                if not head or len(head) > 2:
+                    continue
+                # the head only computes R from p0
+                names = {x.id for h in head for x in ast.walk(h) if isinstance(x, ast.Name)}
+                if not names <= {R, p0, "dict", "copy", "deepcopy"}:
+                    continue
+                pattern = head + [callst]
+
+                def dump(stmts, ren):
+                    out = []
+                    for st_ in stmts:
+                        c_ = _Renamer(ren, {}).visit(copy.deepcopy(st_))
+                        out.append(ast.dump(c_, annotate_fields=True, include_attributes=False))
+                    return out
+
+                for owner in ast.walk(W):
+                    for fld in ("body", "orelse", "finalbody"):
+                        blk = getattr(owner, fld, None)
+                        if not isinstance(blk, list) or len(blk) < len(pattern):
+                            continue
+                        for i in range(len(blk) - len(pattern) + 1):
+                            window = blk[i : i + len(pattern)]
+                            # candidate bindings: the recursive call inside the window
+                            wc = window[-1]
+                            winner = wc.body[0] if isinstance(wc, ast.If) and len(wc.body) == 1 and not wc.orelse else wc
+                            if not (isinstance(winner, ast.Expr) and isinstance(winner.value, ast.Call) and isinstance(winner.value.func, ast.Name) and winner.value.func.id == W.name and len(winner.value.args) == 2 and all(isinstance(a_, ast.Name) for a_ in winner.value.args)):
+                                continue
+                            N, Y = winner.value.args[0].id, winner.value.args[1].id
+                            xs = {x.id for h in window[:-1] for x in ast.walk(h) if isinstance(x, ast.Name)} - {N, "dict", "copy", "deepcopy"}
+                            if len(xs) != 1:
+                                continue
+                            X = xs.pop()
+                            ren = {R: N, p0: X, p1: Y}
+                            if dump(pattern, ren) != dump(window, {}):
+                                continue
+                            new = ast.copy_location(ast.Assign(targets=[ast.Name(id=N, ctx=ast.Store())], value=ast.Call(func=ast.Name(id=F.name, ctx=ast.Load()), args=[ast.Name(id=X, ctx=ast.Load()), ast.Name(id=Y, ctx=ast.Load())], keywords=[]), lineno=window[0].lineno), window[0])
+                            ast.fix_missing_locations(new)
+                            blk[i : i + len(pattern)] = [new]
+                            changed = True
+                            self.log.append(f"folded {F.name}'s body inside {W.name}: {N} = {F.name}({X}, {Y})")
+                            break
+        return changed
+
     # ------------------------------------------------------------------ wrapper decorators
     def inline_wrapper_decorators(self) -> bool:
         """A private decorator (factory) whose wrapper only runs some statements and then calls
@@ -929,6 +1003,18 @@ class Inliner:
             expr = actual[p_]
             if p_ not in assigned and _simple(expr):
                 subst[p_] = expr
+            elif (
+                mode == "assign"
+                and isinstance(target, ast.Name)
+                and isinstance(expr, ast.Name)
+                and expr.id == target.id
+                and p_ in assigned
+                and all(isinstance(r_.value, ast.Name) and r_.value.id == p_ for r_ in walk_own(g.node) if isinstance(r_, ast.Return))
+                and _always_returns(g.node.body)
+            ):
+                # `x = helper(x)` where the helper works on its parameter and returns it: the
+                # body works on x itself
+                rename[p_] = target.id
             else:
                 rename[p_] = prefix + p_
                 binds.append(ast.copy_location(ast.Assign(targets=[ast.Name(id=prefix + p_, ctx=ast.Store())], value=copy.deepcopy(expr), lineno=stmt.lineno), stmt))
@@ -983,6 +1069,8 @@ class Inliner:
                     return [ast.copy_location(ast.Assign(targets=[ast.Name(id=t.id, ctx=ast.Store())], value=e, lineno=ret.lineno), ret) for t, e in zip(target.elts, elts)]
                 if mode == "assign":
                     val = ret.value if ret.value is not None else ast.Constant(value=None)
+                    if isinstance(target, ast.Name) and isinstance(val, ast.Name) and val.id == target.id:
+                        return []  # `x = x`
                     return [ast.copy_location(ast.Assign(targets=[copy.deepcopy(target)], value=val, lineno=ret.lineno), ret)]
                 if ret.value is None or isinstance(ret.value, (ast.Constant, ast.Name)):
                     return []
@@ -1142,6 +1230,14 @@ class Inliner:
 
             self.a = _A(self.p)
         for _ in range(rounds):
+            if self.fold_accumulator_workers():
+                changed_any = True
+                for mod in self.p.modules.values():
+                    normalize_tree(mod.tree)
+                self.p.reindex()
+                from .effects import Analysis as _A3
+
+                self.a = _A3(self.p)
             cands = self.candidates()
             self.gen_cands = self.generator_candidates()
             if not cands and not self.gen_cands:
@@ -1559,12 +1655,31 @@ class Inliner:
                 hoisted = self._hoist_argument(f, st, v_, cands)
                 if hoisted is not None:
                     return hoisted
+        if isinstance(st, ast.Expr) and isinstance(st.value, ast.Yield) and isinstance(st.value.value, ast.Call):
+            # `yield helper(...)`: the value is computed before the generator suspends
+            inner = st.value.value
+            c = self.a.callee(f, inner)
+            if c.kind == "func" and id(c.func) in cands and id(c.func) not in getattr(self, "gen_cands", {}) and c.func is not f and not c.func.is_async and not (isinstance(inner.func, ast.Attribute) and not _simple(inner.func.value)):
+                tmp = ast.Name(id=f"_inl{next(self.counter)}_yield", ctx=ast.Store())
+                try:
+                    pre = self._expand(f, st, inner, False, c.func, "assign", tmp)
+                except NotInlinable as e:
+                    self.log.append(f"not inlined {c.func.qualname} in {f.qualname}: {e}")
+                    return None
+                last = pre[-1] if pre else None
+                if isinstance(last, ast.Assign) and len(last.targets) == 1 and isinstance(last.targets[0], ast.Name) and last.targets[0].id == tmp.id:
+                    st.value.value, pre = last.value, pre[:-1]
+                else:
+                    st.value.value = ast.copy_location(ast.Name(id=tmp.id, ctx=ast.Load()), inner)
+                ast.fix_missing_locations(st)
+                return pre + [st]
+            return None
         mode, target, value = None, None, None
         if isinstance(st, ast.Expr):
             mode, value = "expr", st.value
         elif isinstance(st, ast.Assign) and len(st.targets) == 1 and (isinstance(st.targets[0], ast.Name) or (isinstance(st.targets[0], ast.Attribute) and _simple(st.targets[0].value)) or (isinstance(st.targets[0], ast.Subscript) and _simple(st.targets[0].value) and _simple(st.targets[0].slice))):
             mode, target, value = "assign", st.targets[0], st.value
-        elif isinstance(st, ast.AnnAssign) and isinstance(st.target, ast.Name) and st.value is not None:
+        elif isinstance(st, ast.AnnAssign) and st.value is not None and (isinstance(st.target, ast.Name) or (isinstance(st.target, ast.Attribute) and _simple(st.target.value))):
             mode, target, value = "assign", st.target, st.value
         elif isinstance(st, ast.Assign) and len(st.targets) == 1 and isinstance(st.targets[0], ast.Tuple) and all(isinstance(t, ast.Name) for t in st.targets[0].elts):
             mode, target, value = "assign", st.targets[0], st.value
@@ -1618,6 +1733,10 @@ class Inliner:
                 self.log.append(f"not inlined {c.func.qualname} in {f.qualname}: {e}")
                 return None
             use = ast.copy_location(ast.Name(id=tmp.id, ctx=ast.Load()), expr)
+            last = pre[-1] if pre else None
+            if isinstance(last, ast.Assign) and len(last.targets) == 1 and isinstance(last.targets[0], ast.Name) and last.targets[0].id == tmp.id:
+                # the helper ends in `return <expr>`: the expression takes the call's place
+                use, pre = last.value, pre[:-1]
             if seq is call.args:
                 if isinstance(call.args[i], ast.Starred):
                     call.args[i].value = use
